@@ -17,14 +17,15 @@ pub const ROBOTO: &str = "/repo/test-pdfs/Roboto-Regular.ttf";
 pub const SOURCESANS: &str = "/repo/test-pdfs/SourceSans3-Regular.otf";
 pub const DEJAVU: &str = "/usr/share/fonts/truetype/dejavu/";
 
-/// font spec: "file:<path>" or "gen:<path>:<short|long>:<nchars>:<pad_to>" (derived font: closure of the glyphs of the
+/// font spec: "file:<path>" or "gen:<path>:<short|long>:<nchars>:<pad_to>[:cf]" (cf = composites first: every component
+/// reference points at a higher gid; derived font: closure of the glyphs of the
 /// first <nchars> mapped code points from Latin/Greek/Cyrillic blocks, re-encoded with the given loca format)
 pub fn load_font(spec: &str) -> Result<Vec<u8>, String> {
     if let Some(p) = spec.strip_prefix("file:") {
         return std::fs::read(p).map_err(|e| format!("{p}: {e}"));
     }
     let parts: Vec<&str> = spec.split(':').collect();
-    if parts.len() != 5 || parts[0] != "gen" {
+    if !(parts.len() == 5 || (parts.len() == 6 && parts[5] == "cf")) || parts[0] != "gen" {
         return Err(format!("bad font spec {spec}"));
     }
     let base = std::fs::read(parts[1]).map_err(|e| format!("{}: {e}", parts[1]))?;
@@ -32,7 +33,7 @@ pub fn load_font(spec: &str) -> Result<Vec<u8>, String> {
     let n: usize = parts[3].parse().map_err(|_| "nchars")?;
     let pad: usize = parts[4].parse().map_err(|_| "pad")?;
     let want: BTreeSet<u16> = s.cmap()?.into_iter().filter(|(cp, _)| *cp >= 0x20 && *cp < 0x2000).take(n).map(|(_, g)| g).collect();
-    sfnt::derive(&s, &want, parts[2] == "short", pad)
+    sfnt::derive(&s, &want, parts[2] == "short", pad, parts.len() == 6)
 }
 
 fn digest(b: &[u8]) -> Vec<u8> {
@@ -104,7 +105,7 @@ pub fn run_case(data: &[u8], chars: &[u32]) -> Result<CaseOut, String> {
     let mut im: Vec<(u32, u32)> = res.glyph_mapping.iter().map(|(&c, &g)| (c, g as u32)).collect();
     im.sort();
     let (mut sub_entries, mut wfp, mut ngs) = (vec![], vec![], 0);
-    let dg = reach.len() > 24;
+    let dg = reach.len() > 10;
     if !full {
         match Sfnt::parse(&res.font_data) {
             Err(e) => wfp.push(format!("subset does not parse: {e}")),
@@ -157,6 +158,8 @@ fn font_specs(thorough: bool) -> Vec<String> {
         format!("gen:{DEJAVU}DejaVuSans.ttf:short:300:101000"),
         format!("gen:{ROBOTO}:long:400:150000"),
         format!("gen:{ROBOTO}:short:120:0"),
+        format!("gen:{DEJAVU}DejaVuSans.ttf:short:300:101000:cf"),
+        format!("gen:{ROBOTO}:long:400:150000:cf"),
     ];
     if thorough {
         for f in ["DejaVuSerif.ttf", "DejaVuSans-Bold.ttf", "DejaVuSerif-Bold.ttf", "DejaVuSansMono-Bold.ttf", "DejaVuSans-Oblique.ttf"] {
@@ -164,6 +167,8 @@ fn font_specs(thorough: bool) -> Vec<String> {
         }
         v.push(format!("gen:{DEJAVU}DejaVuSerif.ttf:short:280:100000"));
         v.push(format!("gen:{DEJAVU}DejaVuSansMono.ttf:long:500:100001"));
+        v.push(format!("gen:{DEJAVU}DejaVuSerif.ttf:long:350:100000:cf"));
+        v.push(format!("gen:{ROBOTO}:short:200:100000:cf"));
     }
     v
 }
@@ -212,7 +217,7 @@ pub fn run(ctx: &Ctx) {
                         eprintln!("wf problems {} {:?}: {:?}", spec, &chars[..chars.len().min(8)], &c.wf_problems[..c.wf_problems.len().min(3)]);
                     }
                 }
-                if c.coq.len() > 7000 {
+                if c.coq.len() > 9000 {
                     big.push(c.coq, js, &label, nt);
                 } else {
                     small.push(c.coq, js, &label, nt);
@@ -247,12 +252,33 @@ pub fn run(ctx: &Ctx) {
             let keys: Vec<u32> = s.cmap().expect("cmap").keys().copied().collect();
             let sizes: &[usize] = if ctx.thorough() { &[0, 1, 2, 3, 5, 8, 9, 10, 11, 12, 16, 24, 40, 64, 100, 160] } else { &[0, 1, 3, 9, 10, 11, 16, 30, 60] };
             for &n in sizes {
-                for class in ["latin", "accented", "greekcyr", "any", "unmapped_mix"] {
+                let classes: &[&str] = if spec.ends_with(":cf") { &["accented", "any"] } else { &["latin", "accented", "greekcyr", "any", "unmapped_mix"] };
+                for &class in classes {
                     let reps = if n <= 16 && n > 0 { 2 } else { 1 };
                     for _ in 0..reps {
                         let chars = pick_chars(&mut r, &keys, class, n);
                         emit(&mut small, &mut big, &spec, &data, &chars, class);
                     }
+                }
+            }
+            // identity prefix: the characters of gids 1..k (every gid up to k kept, so those glyphs keep their ids while
+            // components further up are renumbered), alone and together with a few characters from further up
+            let inv: BTreeMap<u16, u32> = s.cmap().expect("cmap").iter().map(|(&c, &g)| (g, c)).rev().collect();
+            let mut kmax = 0usize;
+            while inv.contains_key(&((kmax + 1) as u16)) {
+                kmax += 1;
+            }
+            if kmax >= 1 {
+                let ks: Vec<usize> = if ctx.thorough() { (0..10).map(|_| r.range(1, kmax.min(120) as u64) as usize).collect() } else { (0..5).map(|_| r.range(1, kmax.min(60) as u64) as usize).collect() };
+                for k in ks {
+                    let mut chars: Vec<u32> = (1..=k).map(|g| inv[&(g as u16)]).collect();
+                    if r.chance(1, 2) {
+                        chars.extend(pick_chars(&mut r, &keys, "any", 6));
+                    }
+                    while chars.len() < 10 && chars.len() < keys.len() {
+                        chars.extend(pick_chars(&mut r, &keys, "any", 3)); // stay above the 10-character skip threshold
+                    }
+                    emit(&mut small, &mut big, &spec, &data, &chars, "prefix");
                 }
             }
             // large sets around the 50 % ratio test, and one set per run that keeps most of a big block
